@@ -10,14 +10,16 @@ open Gen
 
 theorem isHole_iff (level : Int) (h : 0 ≤ level) :
     PolyPathBase_IsHole level = true ↔ (level ≠ 0 ∧ level % 2 = 0) := by
-  sorry
+  -- holds for every integer level (64-bit wrap-around preserves parity); `h` is not needed
+  have _ := h
+  exact Proofs.C04.isHole_iff level
 
 /-- a child of a node at level ≥ 1 has the opposite hole status; top-level polygons are not holes -/
 theorem isHole_alternates (level : Int) (h : 1 ≤ level) :
     PolyPathBase_IsHole (level + 1) = !PolyPathBase_IsHole level := by
-  sorry
+  exact Proofs.C04.isHole_alternates level h
 
 theorem top_level_not_hole : PolyPathBase_IsHole 1 = false ∧ PolyPathBase_IsHole 0 = false := by
-  sorry
+  exact Proofs.C04.top_level_not_hole
 
 end C04
